@@ -109,5 +109,22 @@ CLAIMS = {
         "note": TRUST + "timing relative to the 2 s read timeout and success of the following exchange on a real socket are not decided",
         "technique": "conditional-constant exploration of retry-loop automata + must-pass-through + may-raise effects (static analysis)",
     },
+    "C06": {
+        "text": "The SHA-256 proof comparison dominates every return of _get_local_key (path conditions), its operands partition the reply and "
+                "bind it to the configured key; key/expiry are written only by __init__ and authenticate, the stored key is the verified "
+                "return value, every raising path leaves them untouched; LAN credential stores are reached only after a successful "
+                "handshake for every budget/outcome sequence (loop exploration); the only write is write(token, HANDSHAKE_REQUEST) after "
+                "the flush; reply-caused failures surface as AuthenticationError (may-raise analysis); expiry = now + 12 h.",
+        "note": TRUST + "that both sides derive the same key (XOR/AES algebra) is trusted",
+        "technique": "path-condition dominance + who-writes + retry-loop exploration + may-raise effects (static analysis)",
+    },
+    "C07": {
+        "text": "Typestate decided as invariants each call re-establishes: the data write in LAN.send is dominated by not-V3 / authenticated "
+                "/ completed authenticate(); single data-write and handshake-write sites; key guard in the encoder; session state is "
+                "per-instance and the factory constructs a fresh protocol per connection; counter' = (counter+1) mod 2^k, k ≤ 16; "
+                "`authenticated` and `_alive` lifetime predicates have the right polarity and constants (12 h).",
+        "note": TRUST + "wall-clock behaviour is not decided; histories need no enumeration because each clause is a per-call invariant",
+        "technique": "must-pass-through typestate + who-may-call + value-flow/affine-mod reasoning (static analysis)",
+    },
 }
 NOT_APPLICABLE = {}
